@@ -52,7 +52,8 @@ Inductive op :=
 | OPutElement (f tag ref : Z) (bytes : list Z)
 | ODup (f tag ref otag oref : Z)
 | ODel (f tag ref : Z)
-| OExist (f tag ref : Z).
+| OExist (f tag ref : Z)
+| OHBconvert (h : Z).               (* HBconvert: the handle's element is buffered in memory until the handle is closed *)
 
 (** [RUnspec]: the operation lies outside the property's domain (listed in DESIGN.md / checks/C01.py
     ASSUMPTIONS); nothing is claimed about it or about anything later in the same history. *)
@@ -336,6 +337,7 @@ Definition step1 (s : state) (o : op) : state * res :=
       | None => (s, RFail)
       | Some es => match efind (tag, ref) es with Some _ => (s, ROk [] None) | None => (s, RFail) end
       end
+  | OHBconvert _ => (s, RUnspec)       (* see [bstep] *)
   end.
 
 (** opening into a slot that still holds a handle is a harness-level misuse, not an API behaviour *)
@@ -347,3 +349,72 @@ Definition step (s : state) (o : op) : state * res :=
 
 Fixpoint run (s : state) (ops : list op) : list res :=
   match ops with [] => [] | o :: t => let '(s', r) := step s o in r :: run s' t end.
+
+(* ---- buffered access (hbuffer.c) -------------------------------------------------------------------- *)
+(** HBconvert makes the handle work on a copy of the element in memory; the copy is written back when the handle is
+    closed.  For the handle itself nothing changes (a buffered element is "transparent"): it is the same byte array,
+    it can grow exactly when the element underneath can (linked-block / external elements and extendable handles),
+    a gap skipped over by seeking reads as zeros.  Until the handle is closed the file does not show its writes, so
+    every other use of that element is outside the domain. *)
+Record bstate := mkb { b_st : state; b_buf : list Z }.
+Definition binit : bstate := mkb init [].
+
+Definition buffered_by (b : bstate) (f : Z) (k : key) : list Z :=
+  filter (fun h => match zlookup h (hnds (b_st b)) with
+                   | Some x => (h_file x =? f) && key_eqb (h_key x) k | None => false end) (b_buf b).
+
+(** the elements an operation names directly (not through a handle) *)
+Definition op_targets (o : op) : list (Z * key) :=
+  match o with
+  | OStartWrite _ f tag ref _ | OStartAccess _ f tag ref _ | OHLcreate _ f tag ref _ _ | OHXcreate _ f tag ref _
+  | OLength f tag ref | OGetElement f tag ref | OPutElement f tag ref _ | ODel f tag ref | OExist f tag ref => [(f, (tag, ref))]
+  | ODup f tag ref otag oref => [(f, (tag, ref)); (f, (otag, oref))]
+  | _ => []
+  end.
+Definition op_handle (o : op) : option Z :=
+  match o with
+  | OAppendable h | OWrite h _ | ORead h _ | OSeek h _ _ | OTell h | OTrunc h _ | OInquire h | OEnd h | OHBconvert h => Some h
+  | _ => None
+  end.
+Definition zmem (h : Z) (l : list Z) : bool := existsb (Z.eqb h) l.
+
+Definition bstep (b : bstate) (o : op) : bstate * res :=
+  let s := b_st b in
+  if existsb (fun fk => negb (match buffered_by b (fst fk) (snd fk) with [] => true | _ => false end)) (op_targets o)
+  then (b, RUnspec) else
+  match o with
+  | OHBconvert h =>
+      let '(s', r) := with_handle s h (fun x e es =>
+        if has_other_handle_on s h (h_file x) (h_key x) || e_alias e || zmem h (b_buf b) then (s, RUnspec) else
+        if e_new e then
+          (* no data yet: the element gets length 0 and can grow, as when it is written directly *)
+          let e' := mkelem (e_key e) [] false false false in
+          (set_hnd (set_elems s (h_file x) (eset e' es)) h (mkhnd (h_file x) (h_key x) 0 true (h_wr x)), ROk [] None)
+        else (s, ROk [] None)) in
+      (mkb s' (match r with ROk _ _ => h :: b_buf b | _ => b_buf b end), r)
+  | OReopen f =>
+      let '(s', r) := step s o in (mkb s' (b_buf b), r)
+  | _ =>
+      match op_handle o with
+      | Some h =>
+          if zmem h (b_buf b) then
+            match o with
+            | OTrunc _ _ | OAppendable _ => (b, RUnspec)
+            | OSeek _ off origin =>
+                let '(s', r) := with_handle s h (fun x e es =>
+                  if negb ((origin =? DF_START) || (origin =? DF_CURRENT) || (origin =? DF_END)) then (s, RUnspec) else
+                  let len := zlen (e_data e) in
+                  let t := off + (if origin =? DF_CURRENT then h_pos x else if origin =? DF_END then len else 0) in
+                  if t <? 0 then (s, RFail) else
+                  if (len <? t) && negb (e_linked e || h_app x) then (s, RUnspec) else
+                  (set_hnd s h (mkhnd (h_file x) (h_key x) t (h_app x) (h_wr x)), ROk [] None)) in
+                (mkb s' (b_buf b), r)
+            | OEnd _ =>
+                let '(s', r) := step s o in
+                (mkb s' (filter (fun h' => negb (h' =? h)) (b_buf b)), r)
+            | _ => let '(s', r) := step s o in (mkb s' (b_buf b), r)
+            end
+          else let '(s', r) := step s o in (mkb s' (b_buf b), r)
+      | None => let '(s', r) := step s o in (mkb s' (b_buf b), r)
+      end
+  end.
